@@ -42,5 +42,25 @@ for d in sorted(glob.glob(os.path.join(V, "seeded", "*"))):
 tab = "\n".join(rows)
 if "<!-- SEEDS:BEGIN -->" in s:
     s = re.sub(r"<!-- SEEDS:BEGIN -->.*?<!-- SEEDS:END -->", lambda m_: "<!-- SEEDS:BEGIN -->\n" + tab + "\n<!-- SEEDS:END -->", s, flags=re.S)
+# counts
+rows = ["| property | props files | theorems | examples | obligations discharged (evidence) | cases evaluated | quick wall s |", "|---|---|---|---|---|---|---|"]
+tt = te = 0
+for i in range(1, 21):
+    pid = "C%02d" % i
+    files = sorted(glob.glob(os.path.join(V, "coq", "props", pid + "*.v")))
+    nt = sum(open(f).read().count("\nTheorem ") for f in files)
+    ne = sum(open(f).read().count("\nExample ") for f in files)
+    tt += nt; te += ne
+    ev = {}
+    try:
+        ev = json.load(open(os.path.join(V, "evidence", pid + ".json")))
+    except Exception:
+        pass
+    cov = ev.get("coverage", {})
+    rows.append("| %s | %s | %d | %d | %s/%s | %s | %s |" % (pid, ", ".join(os.path.basename(f)[:-2] for f in files), nt, ne, cov.get("discharged", "?"), cov.get("obligations", "?"),
+                                                   cov.get("evaluations", "?"), ev.get("wall_s", "?")))
+rows.append("| total | %d files | %d | %d | | | |" % (len(glob.glob(os.path.join(V, "coq", "props", "*.v"))), tt, te))
+tab = "\n".join(rows)
+s = re.sub(r"<!-- COUNTS:BEGIN -->.*?<!-- COUNTS:END -->", lambda m_: "<!-- COUNTS:BEGIN -->\n" + tab + "\n<!-- COUNTS:END -->", s, flags=re.S)
 open(p, "w").write(s)
 print("DESIGN.md tables regenerated: %d fixes" % len(fixes))
